@@ -451,6 +451,10 @@ def check_uninit(prog, rep, rule='R-uninit'):
         n += 1
         where = fn.qualname if fn else mod.name
         par = getattr(call, '_parent', None)
+        # x = <other> if c else np.empty(..): the buffer is uninitialised on
+        # one arm, which is enough
+        while isinstance(par, ast.IfExp):
+            par = getattr(par, '_parent', None)
         construct = model.norm_src(mod, par if isinstance(par, ast.Assign)
                                    else call)
         if not (isinstance(par, ast.Assign) and len(par.targets) == 1 and
